@@ -2,22 +2,6 @@
 // failed: assertion failed: create_matrix_transport_cost(vec![matrix(0, None, 4, 4),
 matrix(2, None, 4, 4)]).is_err() @ costs_proofs.rs:170
 // run: /verif/check --replay /verif/replays/C16/c16_reject_gap_profile.rs
-/// Test generated for harness `models::problem::costs::verif_kani_proofs::c16_reject_gap_profile` 
-///
-/// Check for `assertion`: "assertion failed: create_matrix_transport_cost(vec![matrix(0, None, 4, 4),
-matrix(2, None, 4, 4)]).is_err()"
-///
-/// # Warning
-///
-/// Concrete playback tests combined with stubs or contracts is highly
-/// experimental, and subject to change.
-///
-/// The original harness has stubs which are not applied to this test.
-/// This may cause a mismatch of non-deterministic values if the stub
-/// creates any non-deterministic value.
-/// The execution path may also differ, which can be used to refine the stub
-/// logic.
-
 #[test]
 fn kani_concrete_playback_c16_reject_gap_profile_14529796391013740085() {
     let concrete_vals: Vec<Vec<u8>> = vec![
